@@ -37,8 +37,16 @@ CHECKS = {
          "checkCmd from an arbitrary list of up to 2 (quick) / 3 (thorough) grants with symbolic type (all 256 values), start, expiry, command text and principal, symbolic request and clock: succeeds iff a grant of the matching type is effective, unexpired and (commands) textually identical; exactly that grant is consumed and the rest kept in order; startCodex for a grant session goes ahead iff checkCmd accepted; one pass of the session's tube loop dispatches only execution for grant sessions (two recorded known findings: port-forward and authgrant tubes are not gated).",
          "Clock and user lookup are the repo's own thunks set by the harness; tube/muxer methods and exec-message parsing are stubs; go statements are recorded, not run.",
          "SSA symbolic execution + SMT (z3), iff-obligation over arbitrary grant lists"),
+ "C08": ("DESIGN.md §5 C08",
+         "Safety core only: unwrapFrameNo recovers every true frame number within 2^31 of the acknowledgement number; frameInBounds is interval membership; one receiver step from an arbitrary invariant-satisfying state (ghost stream D(k), <=2 queued fragments, arriving frame anywhere from 2 behind to 5 ahead) extends the buffer by exactly the next in-order frames and reports end-of-stream only when the FIN frame is reached in order; a FIN that overtook data changes no close state in any of six tube states; the sender cuts any write of 0..65537 bytes into consecutively numbered frames concatenating to the buffer; recvAck (under C11) and one retransmission-timer tick of the send loop keep the unacknowledged frames; a decoded frame owns its payload.",
+         "Eventual delivery ('if the network delivers again every byte becomes readable') is a liveness property over timers and several goroutines and is NOT decided; congestion arithmetic is floating point (havoc). The ghost stream is an uninterpreted function (replay=none for that harness).",
+         "SSA symbolic execution + SMT (z3), one-step inductive obligations with a ghost stream"),
+ "C09": ("DESIGN.md §5 C09",
+         "pickTubeID returns the smallest free identifier of the muxer's own parity (out-of-tubes iff none), ignoring the other parity and the other reliability class; the muxer's real receive loop run over two frames (first arbitrary, second valid) delivers each frame only to the tube with its (reliability, identifier), creates a tube iff REQ names a free pair and offers it to Accept once with the announced type; every frame a reliable/unreliable tube emits carries its identifier and reliability class; a closed reliable tube's identifier stays reserved by its opener until the reap timer; unreliable write -> frame -> decode -> receive -> read is the identity for lengths {0,1,100,32768} and a refusal for {32769,...,70000}.",
+         "'A later tube that reuses the identifier never sees the old tube's packets' is decided only as the reservation step above; the 4*RTT timer racing the network is schedule/timing and outside. Tube receive functions are recorders in the loop harness (replay=none).",
+         "SSA symbolic execution + SMT (z3), one loop iteration / one step from constructed states"),
  "C10": ("DESIGN.md §5 C10",
-         "Every datagram of length 0..65535 with arbitrary bytes (including a live session's public id) through the server's and client's session-message handler from an arbitrary session state: no panic, returns, and no state moves unless its AEAD open succeeded. Handshake-message readers and the hidden-mode loop are not yet covered by this check (listed in DESIGN.md).",
+         "Every datagram of length 0..65535 with arbitrary bytes (including a live session's public id) through the server's and client's session-message handler from an arbitrary session state, and every datagram of length 0..1700 with a fully symbolic type byte through Server.readPacket in discoverable and hidden mode with 1-2 certificates, a pending handshake of another address and an established session: no panic, returns, other peers' handshakes and unauthenticated sessions untouched. The SNI -> virtual-host -> glob path is covered by C20's harnesses.",
          "AEAD stubbed by a nondeterministic Open; panics replay natively against the real build.",
          "SSA symbolic execution + SMT (z3), panic-freedom + non-interference, one step from arbitrary state"),
  "C11": ("DESIGN.md §5 C11",
